@@ -239,6 +239,16 @@ def run(tier, seed, out, drv, facts):
             for p in range(1, npoints[a], stride):
                 order = others if (p % 2 or n == 2) else others[::-1]
                 schedules.append([(a, p)] + [(b, None) for b in order] + [(a, None)])
+        # (0) first of all, while this process has seen few thread idents: a sample with workers started through
+        #     `_thread.start_new_thread` (state keyed by thread ident or by what `threading.enumerate()` lists behaves
+        #     differently for idents it has met before, so the late phase (5) alone depends on the history of the run)
+        _MODE["raw"] = True
+        try:
+            ok0 = explore(out, files, progs, solo, rng.sample(schedules, min(len(schedules), 200 if thorough else 40)), tag + "@raw-first", npoints)
+        finally:
+            _MODE["raw"] = False
+        if not ok0:
+            continue
         if not explore(out, files, progs, solo, schedules, tag, npoints):
             continue
         # (2) two overlapping windows; (3) multi-segment schedules
